@@ -61,7 +61,7 @@ def transparent(f):
     s = getattr(f, "__self__", None)
     if isinstance(s, (list, dict, set, tuple, str)) and not isinstance(s, type):
         return True
-    if isinstance(s, SArr) or isinstance(s, Sym):
+    if isinstance(s, SArr) or isinstance(s, Sym) or getattr(s, "__pyvc_symbolic__", False):
         return True
     if isinstance(f, type) and issubclass(f, BaseException):
         return True
@@ -309,6 +309,8 @@ def to_sarr(v):
 
 @model(np.asarray, np.array, np.atleast_1d, np.asanyarray)
 def np_asarray(interp, v, *a, **k):
+    if hasattr(v, "__pyvc_array__"):
+        return v.__pyvc_array__(interp)
     if isinstance(v, Sym):
         return v
     if isinstance(v, SArr):
@@ -357,7 +359,7 @@ def getitem(arr, key):
             plan.append(("off", lo))
             shape.append(ln)
         elif isinstance(k, SArr) and k.dtype == "int" and k.ndim == 1:
-            plan.append(("fancy", k))
+            plan.append(("fancy", k.copy()))
             shape.append(k.shape[0])
         elif isinstance(k, (np.ndarray, list)) and not deep_sym(k):
             kk = np.asarray(k)
@@ -415,10 +417,17 @@ def _bounds_obligation(k, n):
 def setitem(arr, key, val):
     """SArr.__setitem__: replaces arr.fn (in place, aliases see it)"""
     old = arr.fn
+    same_mask = isinstance(val, SMasked) and val.mask is key
+    if isinstance(val, SArr):
+        val = val.copy()          # the right-hand side is evaluated before the store
+    elif isinstance(val, SMasked):
+        val = SMasked(val.base.copy() if isinstance(val.base, SArr) else val.base, val.mask)
+    if isinstance(key, SArr):
+        key = key.copy()
     if isinstance(key, SArr) and key.dtype == "bool":
         mask = key
         if isinstance(val, SMasked):
-            if val.mask is not mask and not _same_mask(val.mask, mask):
+            if not same_mask:
                 raise OutsideSubset("a[m] = b[m2] with different masks")
             src = val.base
             nd = arr.ndim
@@ -446,6 +455,15 @@ def setitem(arr, key, val):
     if len(key) == 1 and isinstance(key[0], slice) and key[0] == slice(None):
         nd = arr.ndim
         arr.fn = lambda *i: sym.index_into(val, i, nd)
+        return
+    if arr.ndim == 2 and len(key) == 2 and isinstance(key[1], slice) and key[1] == slice(None) \
+            and isinstance(key[0], (int, Sym)):
+        row = key[0]
+        _bounds_obligation(row, arr.shape[0])
+
+        def fn(i, j):
+            return sym.ite(mk(lift(i) == lift(row)), sym.index_into(val, (j,), 1), old(i, j))
+        arr.fn = fn
         return
     raise OutsideSubset("array store with key %r" % (key,))
 
@@ -1217,3 +1235,62 @@ import scipy.linalg as _sl
 from . import matrix as _matrix
 _MODELS[_sl.inv] = _matrix.inv_model
 _MODELS[np.linalg.inv] = _matrix.inv_model
+
+
+@model(np.hstack, np.concatenate)
+def np_hstack(interp, parts, *a, **k):
+    if hasattr(parts, "__pyvc_hstack__"):
+        return parts.__pyvc_hstack__(interp)
+    raise OutsideSubset("np.hstack of symbolic parts")
+
+
+@model(np.arange)
+def np_arange(interp, *args, **k):
+    if len(args) == 1:
+        n = args[0]
+        return SArr((n,), lambda i: i, "int")
+    raise OutsideSubset("np.arange with symbolic bounds")
+
+
+@model(np.random.shuffle)
+def np_random_shuffle(interp, arr):
+    """in-place: the new content is the old content re-indexed by SOME bijection of [0,n)
+    (the permutation is arbitrary: every one the random generator can draw is covered)"""
+    ctx = interp.ctx
+    n = arr.shape[0]
+    nm = ctx.fresh_name("perm")
+    pi = z3.Function(nm, z3.IntSort(), z3.IntSort())
+    pinv = z3.Function(nm + "_inv", z3.IntSort(), z3.IntSort())
+    q = z3.Int(ctx.fresh_name("q"))
+    inr = lambda t: z3.And(t >= 0, t < lift(n))
+    ctx.assume(z3.ForAll([q], z3.Implies(inr(q), z3.And(inr(pi(q)), pinv(pi(q)) == q))))
+    ctx.assume(z3.ForAll([q], z3.Implies(inr(q), z3.And(inr(pinv(q)), pi(pinv(q)) == q))))
+    old = arr.fn
+    arr.fn = lambda i: old(Sym(pi(lift(i))))
+    # ghost: the inverse permutation (only meaningful when the old content was the identity, i.e. np.arange)
+    arr.ghost_inverse = SArr((n,), lambda i: Sym(pinv(lift(i))), "int")
+    ctx.ghost.setdefault("permutations", []).append((pi, pinv, n))
+    return None
+
+
+@model(builtins.enumerate)
+def py_enumerate(interp, it, start=0):
+    if hasattr(it, "__pyvc_enumerate__"):
+        return it.__pyvc_enumerate__(interp, start)
+    return enumerate(concrete_iter(interp, it), start)
+
+
+@model(np.column_stack)
+def np_column_stack(interp, cols):
+    cols = [to_sarr(c) for c in cols]
+    n = cols[0].shape[0]
+    k = len(cols)
+
+    def fn(i, c):
+        if isinstance(c, Sym):
+            r = cols[-1].fn(i)
+            for j in range(k - 2, -1, -1):
+                r = sym.ite(c == j, cols[j].fn(i), r)
+            return r
+        return cols[c].fn(i)
+    return SArr((n, k), fn, "real")
